@@ -81,6 +81,7 @@ type Event struct {
 	ViaCall *ast.CallExpr
 	Lit     *ast.FuncLit
 	Target  *types.Func // for method values / function identifiers passed to a combinator
+	Helper  bool        // EvEnter/EvExit bracket of an inlined unexported helper of the same package
 }
 
 type Path struct {
@@ -99,6 +100,8 @@ type Engine struct {
 	busy   map[*Func]bool
 	MaxPth int
 	Trunc  []string // functions whose path enumeration was truncated
+	inl    map[*Func]bool // helpers being inlined (recursion guard)
+	hcount map[*Func]int  // cached path counts of helper candidates
 }
 
 type combSummary struct {
@@ -107,7 +110,7 @@ type combSummary struct {
 }
 
 func NewEngine(p *Program) *Engine {
-	return &Engine{P: p, cache: map[*Func][]Path{}, combs: map[*types.Var]*combSummary{}, busy: map[*Func]bool{}, MaxPth: 60000}
+	return &Engine{P: p, cache: map[*Func][]Path{}, combs: map[*types.Var]*combSummary{}, busy: map[*Func]bool{}, MaxPth: 60000, inl: map[*Func]bool{}, hcount: map[*Func]int{}}
 }
 
 // frozen summaries for library combinators: {min,max} invocations of the function argument.
@@ -731,6 +734,9 @@ func (c *fnCtx) callEvents(call *ast.CallExpr) alts {
 	}
 	ce := Event{Kind: EvCall, Fn: c.fn, Depth: c.depth, Pos: call.Pos(), Node: call, Call: call, Callee: callee, Recv: recvExpr(call), Loop: c.inLoop(call.Pos())}
 	if len(fargs) == 0 {
+		if sub := c.inlineHelper(callee, call); sub != nil {
+			return seq(seq(a, one(ce)), sub)
+		}
 		return seq(a, one(ce))
 	}
 	// Is the callee a synchronous combinator for these parameters?
@@ -784,7 +790,7 @@ func (c *fnCtx) inlineLit(lit *ast.FuncLit, via types.Object, call *ast.CallExpr
 }
 
 func (c *fnCtx) inlineLitVia(lit *ast.FuncLit, via types.Object, call *ast.CallExpr, min, max int) alts {
-	lf := c.e.P.Lits[lit]
+	lf := c.litFunc(lit)
 	var out alts
 	if min == 0 {
 		out = append(out, []Event{{Kind: EvSkip, Fn: c.fn, Depth: c.depth, Pos: lit.Pos(), Node: lit, Lit: lit, Via: via, ViaCall: call, Loop: c.inLoop(lit.Pos())}})
@@ -816,8 +822,111 @@ func (c *fnCtx) inlineTarget(tgt *types.Func, via types.Object, call *ast.CallEx
 	enter := Event{Kind: EvEnter, Fn: c.fn, Depth: c.depth, Pos: call.Pos(), Node: call, Target: tgt, Via: via, ViaCall: call}
 	ce := Event{Kind: EvCall, Fn: c.fn, Depth: c.depth + 1, Pos: call.Pos(), Node: call, Callee: tgt, Loop: c.inLoop(call.Pos())}
 	exit := Event{Kind: EvExit, Fn: c.fn, Depth: c.depth, Pos: call.End(), Node: call, Target: tgt, Via: via, ViaCall: call}
+	// method value of an unexported helper of this package (once.Do(s.worker)): look into its body
+	if def := c.e.P.Funcs[tgt]; def != nil && !tgt.Exported() && def.Pkg == c.fn.Pkg && !c.e.inl[def] && c.depth < 4 {
+		var recv ast.Expr
+		for _, a := range call.Args {
+			if se, ok := ast.Unparen(a).(*ast.SelectorExpr); ok && funcValueTarget(c.info, se) == tgt {
+				recv = se.X
+			}
+		}
+		d := deriveFunc(def, c.fn, nil, recv)
+		c.e.inl[def] = true
+		sub := c.e.enumerate(d, c.depth+1)
+		delete(c.e.inl, def)
+		if len(sub) > 0 && len(sub) <= 32 {
+			for _, sp := range sub {
+				evs := []Event{enter, ce}
+				evs = append(evs, sp.Events...)
+				evs = append(evs, exit)
+				out = append(out, evs)
+			}
+			return out
+		}
+	}
 	out = append(out, []Event{enter, ce, exit})
 	return out
+}
+
+// deriveFunc makes the per-call-site instance of a helper: same syntax and types, with its
+// parameters and receiver bound to the caller's argument expressions (for provenance).
+func deriveFunc(def *Func, caller *Func, call *ast.CallExpr, recv ast.Expr) *Func {
+	d := *def
+	d.defs = def.Defs()
+	def.isDecodeTarget(nil)
+	d.decodeTargets = def.root().decodeTargets
+	d.bind = &binding{caller: caller, call: call, recv: recv}
+	d.orig = def
+	return &d
+}
+
+// inlineHelper: an unexported function or method of the caller's own package with a small body is
+// looked into (its events follow the call event, bracketed), so that extracting or inlining a
+// helper does not change what a path is seen to do.
+func (c *fnCtx) inlineHelper(callee types.Object, call *ast.CallExpr) alts {
+	f, ok := callee.(*types.Func)
+	if !ok || f.Exported() || c.depth >= 4 {
+		return nil
+	}
+	def := c.e.P.Funcs[f]
+	if def == nil || def.Pkg != c.fn.Pkg || c.e.inl[def] || def == c.fn.origOrSelf() {
+		return nil
+	}
+	if sig, ok := f.Type().(*types.Signature); ok && sig.Variadic() {
+		return nil
+	}
+	// size bound (measured once on the unbound helper)
+	n, seen := c.e.hcount[def]
+	if !seen {
+		c.e.inl[def] = true
+		n = len(c.e.enumerate(def, 0))
+		delete(c.e.inl, def)
+		c.e.hcount[def] = n
+	}
+	if n == 0 || n > 24 {
+		return nil
+	}
+	var recv ast.Expr
+	if se, ok := ast.Unparen(call.Fun).(*ast.SelectorExpr); ok {
+		if _, isSel := c.info.Selections[se]; isSel {
+			recv = se.X
+		}
+	}
+	d := deriveFunc(def, c.fn, call, recv)
+	c.e.inl[def] = true
+	sub := c.e.enumerate(d, c.depth+1)
+	delete(c.e.inl, def)
+	if len(sub) == 0 {
+		return nil
+	}
+	enter := Event{Kind: EvEnter, Fn: c.fn, Depth: c.depth, Pos: call.Pos(), Node: call, Target: f, Via: f, ViaCall: call, Helper: true, Loop: c.inLoop(call.Pos())}
+	exit := Event{Kind: EvExit, Fn: c.fn, Depth: c.depth, Pos: call.End(), Node: call, Target: f, Via: f, ViaCall: call, Helper: true, Loop: c.inLoop(call.Pos())}
+	var out alts
+	for _, sp := range sub {
+		evs := []Event{enter}
+		evs = append(evs, sp.Events...)
+		evs = append(evs, exit)
+		out = append(out, evs)
+	}
+	return out
+}
+
+// litFunc returns the Func of a literal; inside a bound helper instance the literal gets its own
+// instance whose Outer chain leads to the bound helper (so captured parameters resolve to the
+// caller's arguments).
+func (c *fnCtx) litFunc(lit *ast.FuncLit) *Func {
+	lf := c.e.P.Lits[lit]
+	if lf == nil {
+		return nil
+	}
+	if c.fn.bind == nil && !c.fn.derived {
+		return lf
+	}
+	d := *lf
+	d.Outer = c.fn
+	d.derived = true
+	d.orig = lf
+	return &d
 }
 
 // combinatorFor reports how often callee invokes its idx-th (function-typed) argument.
